@@ -7,13 +7,18 @@
    Mode "name": x = a name of 0..3 components over R (NR reduced components)
    Mode "pair": x = <<a, b>>, names of 0..3 components over Q (NQ components), all pairs
    Mode "ord":  x = <<c, d>>, components around the 1-/3-byte TLV length and type boundaries
+   Mode "text": x = a component TEXT (UTF-8 octets of an arbitrary Unicode string): every character of TextChars
+                (ASCII inside / outside CHARSET and non-ASCII characters of every Unicode general category, among them
+                the decimal digits of other scripts, full-width and compatibility forms of CHARSET characters,
+                combining marks, characters outside the BMP) in every position of every component kind (Templates);
+                pairs of the first NP characters in the two-hole templates
 
    Stage B replays into the library what the reference computed for every input: for "comp" and
    "name" the record `out` of each ph = 1 state (read from TLC's -dump), for "pair"/"ord" one record
    with the domain sorted by the reference order (POSTCONDITION, env C09_OUT).  Numbers are all
    < 2^16; texts and byte strings are sequences of 0..255. *)
 EXTENDS NameUri, Json, IOUtils
-CONSTANTS Mode, NR, NQ
+CONSTANTS Mode, NR, NQ, NP
 VARIABLES x, ph, out
 
 SX == INSTANCE SequencesExt
@@ -61,17 +66,108 @@ OrdVals == {<<>>, <<0>>, <<255>>, <<0, 0>>, <<255, 255>>, <<0, 255>>,
             Rep(0, 252), Rep(255, 252), Rep(0, 253), TweakLast(Rep(0, 253)), Rep(255, 253), Rep(0, 256)}
 OrdComps == {Comp(t, v) : t \in {1, 8, 252, 253, 65535}, v \in OrdVals}
 
+\* ------------------------------------------------------------------ component texts (Mode "text")
+\* ASCII: a F s v 7 0 3 - . _ ~ = % space : + / NUL DEL
+AsciiChars == {<<97>>, <<70>>, <<115>>, <<118>>, <<55>>, <<48>>, <<51>>, <<45>>, <<46>>, <<95>>, <<126>>, <<61>>, <<37>>,
+               <<32>>, <<58>>, <<43>>, <<47>>, <<0>>, <<127>>}
+\* one character = its UTF-8 octets; the comment gives the code point, the Unicode general category and the Python
+\* str / re / int() predicate or transformation under which the character passes for an ASCII one
+UniChars == <<
+    <<195, 169>>,                \* U+00E9 Ll  (re \w, isalnum)
+    <<217, 163>>,                \* U+0663 Nd Arabic-Indic digit three (\d, isdigit, int() = 3)
+    <<239, 188, 157>>,           \* U+FF1D Sm fullwidth equals sign (NFKC "=")
+    <<239, 188, 133>>,           \* U+FF05 Po fullwidth percent sign (NFKC "%")
+    <<240, 157, 159, 155>>,      \* U+1D7DB Nd outside the BMP (int() = 3)
+    <<204, 129>>,                \* U+0301 Mn combining acute
+    <<239, 188, 166>>,           \* U+FF26 Lu fullwidth F (NFKC "F", int(.., 16) = 15)
+    <<197, 191>>,                \* U+017F Ll long s (upper() = "S", casefold() = "s")
+    <<206, 163>>,                \* U+03A3 Lu
+    <<199, 133>>,                \* U+01C5 Lt
+    <<202, 176>>,                \* U+02B0 Lm
+    <<229, 144, 141>>,           \* U+540D Lo
+    <<239, 189, 129>>,           \* U+FF41 Ll fullwidth a (NFKC "a")
+    <<226, 132, 170>>,           \* U+212A Lu KELVIN SIGN (lower() = "k")
+    <<240, 144, 144, 128>>,      \* U+10400 Lu outside the BMP
+    <<224, 164, 190>>,           \* U+093E Mc
+    <<226, 131, 157>>,           \* U+20DD Me
+    <<239, 188, 147>>,           \* U+FF13 Nd fullwidth digit three
+    <<224, 165, 166>>,           \* U+0966 Nd Devanagari digit zero
+    <<226, 133, 167>>,           \* U+2167 Nl
+    <<194, 178>>,                \* U+00B2 No superscript two (isdigit, not int())
+    <<194, 189>>,                \* U+00BD No
+    <<226, 145, 160>>,           \* U+2460 No circled one (isdigit)
+    <<226, 128, 191>>,           \* U+203F Pc
+    <<239, 188, 191>>,           \* U+FF3F Pc fullwidth low line
+    <<226, 128, 144>>,           \* U+2010 Pd
+    <<239, 188, 141>>,           \* U+FF0D Pd fullwidth hyphen-minus
+    <<239, 188, 142>>,           \* U+FF0E Po fullwidth full stop
+    <<239, 189, 158>>,           \* U+FF5E Sm fullwidth tilde
+    <<239, 188, 143>>,           \* U+FF0F Po fullwidth solidus
+    <<226, 130, 172>>,           \* U+20AC Sc
+    <<240, 159, 152, 128>>,      \* U+1F600 So outside the BMP
+    <<194, 180>>,                \* U+00B4 Sk
+    <<195, 151>>,                \* U+00D7 Sm
+    <<194, 160>>,                \* U+00A0 Zs no-break space (isspace, strip())
+    <<226, 128, 168>>,           \* U+2028 Zl
+    <<226, 128, 141>>,           \* U+200D Cf zero width joiner
+    <<194, 133>>,                \* U+0085 Cc NEL
+    <<239, 187, 191>>,           \* U+FEFF Cf BOM
+    <<238, 128, 128>>,           \* U+E000 Co private use
+    <<239, 191, 191>>,           \* U+FFFF Cn noncharacter
+    <<244, 143, 191, 191>> >>    \* U+10FFFF Cn last scalar value
+TextChars == AsciiChars \cup {UniChars[i] : i \in 1..Len(UniChars)}
+\* characters that are combined pairwise: a 3 = % 0 F and the first NP non-ASCII ones
+PairChars == {<<97>>, <<51>>, <<61>>, <<37>>, <<48>>, <<70>>} \cup {UniChars[i] : i \in 1..NP}
+
+H1 == <<1000>>       \* the holes of a template (not octets)
+H2 == <<1001>>
+Eq == <<61>>
+Templates == {
+    \* generic value: @  a@  @a  @@  a@b
+    <<H1>>, <<<<97>>, H1>>, <<H1, <<97>>>>, <<H1, H1>>, <<<<97>>, H1, <<98>>>>,
+    \* next to / inside a percent-escape: @%41  %41@  %C3@  @%  %@  %@1  %1@  %@@  a%4@
+    <<H1, <<37, 52, 49>>>>, <<<<37, 52, 49>>, H1>>, <<<<37, 67, 51>>, H1>>, <<H1, <<37>>>>, <<<<37>>, H1>>,
+    <<<<37>>, H1, <<49>>>>, <<<<37, 49>>, H1>>, <<<<37>>, H1, H1>>, <<<<97, 37, 52>>, H1>>,
+    \* typed NN= value: 32=@  32=a@  8=@  65535=@%41  253=%@1
+    <<<<51, 50, 61>>, H1>>, <<<<51, 50, 61, 97>>, H1>>, <<<<56, 61>>, H1>>, <<<<54, 53, 53, 51, 53, 61>>, H1, <<37, 52, 49>>>>,
+    <<<<50, 53, 51, 61, 37>>, H1, <<49>>>>,
+    \* in the type number: @=a  3@=a  @2=a  0@=a  @=
+    <<H1, <<61, 97>>>>, <<<<51>>, H1, <<61, 97>>>>, <<H1, <<50, 61, 97>>>>, <<<<48>>, H1, <<61, 97>>>>, <<H1, Eq>>,
+    \* in the convention keyword: @eg=1  s@g=1  se@=1  @=1
+    <<H1, <<101, 103, 61, 49>>>>, <<<<115>>, H1, <<103, 61, 49>>>>, <<<<115, 101>>, H1, <<61, 49>>>>, <<H1, <<61, 49>>>>,
+    \* in the convention number: seg=@  seg=1@  v=@1  t=@@  off=@  seq=0@
+    <<AltPrefix(50), Eq, H1>>, <<AltPrefix(50), Eq, <<49>>, H1>>, <<AltPrefix(54), Eq, H1, <<49>>>>,
+    <<AltPrefix(56), Eq, H1, H1>>, <<AltPrefix(52), Eq, H1>>, <<AltPrefix(58), Eq, <<48>>, H1>>,
+    \* in / after the digest keyword: sha256digest=@@  sha256digest=0@  params-sha256=@0  sha256digest@=00  sha256digest=00@
+    <<S_sha, Eq, H1, H1>>, <<S_sha, Eq, <<48>>, H1>>, <<S_par, Eq, H1, <<48>>>>, <<S_sha, H1, Eq, <<48, 48>>>>,
+    <<S_sha, Eq, <<48, 48>>, H1>> }
+\* two different characters: @#  @=#  seg=@#  %@#  32=@#
+Templates2 == { <<H1, H2>>, <<H1, Eq, H2>>, <<AltPrefix(50), Eq, H1, H2>>, <<<<37>>, H1, H2>>, <<<<51, 50, 61>>, H1, H2>> }
+Fill(tp, p, q) == Cat([i \in 1..Len(tp) |-> IF tp[i] = H1 THEN p ELSE IF tp[i] = H2 THEN q ELSE tp[i]])
+Texts == {<<>>} \cup {Fill(tp, p, p) : tp \in Templates, p \in TextChars}
+         \cup {Fill(tp, p, q) : tp \in Templates2, p \in PairChars, q \in PairChars}
+
 Domain == CASE Mode = "comp" -> Comps
             [] Mode = "name" -> RNames
             [] Mode = "pair" -> QNames \X QNames
             [] Mode = "ord"  -> OrdComps \X OrdComps
+            [] Mode = "text" -> Texts
 \* what stage B replays into the library for one input (computed by the workers, read back from -dump)
 \* dec: decimal text of the big-endian number the value holds (what Component.to_number must return), typed-number types
-CompRec(c) == [t |-> c.t, v |-> c.v, enc |-> Enc(c), forms |-> CompForms(c),
+\* strict: the spelling is within CHARSET, i.e. Component.from_str has to accept it; the raw spellings with characters
+\* outside CHARSET it may refuse, but if it accepts them the component must be c all the same (NameUri, TextComp)
+CompRec(c) == [t |-> c.t, v |-> c.v, enc |-> Enc(c),
+               forms |-> {[k |-> f.k, s |-> f.s, strict |-> (StrictComp(f.s) # CErr)] : f \in CompForms(c)},
                dec |-> IF c.t \in AltTypes THEN NumToDec(c.v) ELSE <<>>]
 NameRec(n) == [n |-> n, encs |-> EncList(n), wire |-> EncName(n), forms |-> NameForms(n),
                parts |-> [k \in {"canonU", "canonL", "short", "raw", "rawU"} |-> [i \in 1..Len(n) |-> FormOf(n[i], k)]]]
-Rec(v) == CASE Mode = "comp" -> CompRec(v) [] Mode = "name" -> NameRec(v) [] OTHER -> <<>>
+\* text: what Component.from_str has to answer if it is to accept the text at all (strict: it has to), what the Name-level
+\* entry points (str element of a list, one-component URI) have to answer, and the encoded component
+EncAns(a) == [k |-> a.k, c |-> a.c, enc |-> IF a.k = "ok" THEN Enc(a.c) ELSE <<>>,
+              wire |-> IF a.k = "ok" THEN EncName(<<a.c>>) ELSE <<>>]
+TextRec(s) == [s |-> s, strict |-> EncAns(Ans(StrictComp(s))), loose |-> EncAns(Ans(TextComp(s))),
+               slash |-> (\E i \in 1..Len(s) : s[i] = 47)]
+Rec(v) == CASE Mode = "comp" -> CompRec(v) [] Mode = "name" -> NameRec(v) [] Mode = "text" -> TextRec(v) [] OTHER -> <<>>
 
 \* TLC evaluates invariants on initial states in one thread; the laws are therefore evaluated on the
 \* successor (ph = 1) of every input so that the workers share them.  distinct states = 2 x inputs.
@@ -107,6 +203,19 @@ I_PrefixOrder == ph = 1 => ((IsPrefix(x[1], x[2]) /\ x[1] # x[2]) => NameLess(x[
 I_CompOrder == ph = 1 => (BytesLess(Enc(x[1]), Enc(x[2])) <=> CompLess(x[1], x[2]))
 I_CompTrichotomy == ph = 1 => (B2N(CompLess(x[1], x[2])) + B2N(x[1] = x[2]) + B2N(CompLess(x[2], x[1])) = 1)
 
+\* ------------------------------------------------------------------ laws: component texts
+\* what Component.from_str has to accept is plain CHARSET text, and means there what it means at the Name level
+I_TextStrictIsLoose == ph = 1 => (StrictComp(x) # CErr => (EscapeText(x) = x /\ TextComp(x) = StrictComp(x) /\ ~HasNonAscii(x)))
+I_TextEscapeIdem == ph = 1 => (EscapeText(EscapeText(x)) = EscapeText(x))
+\* an accepted text names a component that survives printing in both forms
+I_TextRoundTrip == ph = 1 => (LET c == TextComp(x) IN c # CErr => (UriToComp(CompToUri(c)) = c /\ UriToComp(Canonical(c)) = c))
+\* a text without '/' is the one-component URI '/' text (the empty text is the empty name there)
+I_TextAsName == ph = 1 => ((x # <<>> /\ ~out.slash) =>
+                   UriToName(<<47>> \o x) = (IF TextComp(x) = CErr THEN NErr ELSE <<TextComp(x)>>))
+\* the three verdicts of FromStrClauses are reachable only by a wrong answer: the reference's own answers pass
+I_TextSelfJudged == ph = 1 => (/\ FromStrClauses(x, Ans(StrictComp(x)), Ans(TextComp(x))) = {}
+                               /\ FromStrClauses(x, Ans(TextComp(x)), Ans(TextComp(x))) = {})
+
 \* ------------------------------------------------------------------ stage B emission
 \* (pair / ord: one record, written by the POSTCONDITION when env C09_OUT is set)
 FormSeq(S) == SX!SetToSeq(S)
@@ -127,6 +236,18 @@ Witnesses ==
                         /\ \E n \in RNames : Len(n) = 2 /\ n[1] = Comp(8, <<>>)          \* leading slash mandatory
                         /\ \E n \in RNames : Len(n) > 0 /\ n[1] # Comp(8, <<>>)          \* leading slash optional
                         /\ \E n \in RNames : Len(n) = 2 /\ "rawU" \in StylesOf(n[1])           \* raw non-ASCII component
+    [] Mode = "text" -> /\ \E s \in Texts : HasNonAscii(s) /\ TextComp(s) # CErr /\ TextComp(s).t = 8          \* raw character, generic
+                        /\ \E s \in Texts : HasNonAscii(s) /\ TextComp(s) # CErr /\ TextComp(s).t = 32         \* ... in a typed value
+                        /\ \E s \in Texts : HasNonAscii(s) /\ TextComp(s) # CErr /\ Len(TextComp(s).v) = 5     \* 4-octet character next to an escape
+                        /\ \E s \in Texts : HasNonAscii(s) /\ TextComp(s) = CErr /\ Len(s) > 4 /\ SubSeq(s, 1, 4) = AltPrefix(50) \o Eq  \* foreign digit as a number
+                        /\ \E s \in Texts : HasNonAscii(s) /\ TextComp(s) = CErr /\ Len(s) > 2 /\ Last(s) = 97 /\ s[Len(s) - 1] = 61    \* ... as a type
+                        /\ \E s \in Texts : StrictComp(s) # CErr /\ StrictComp(s).t = 50                       \* plain shorthand
+                        /\ \E s \in Texts : StrictComp(s) = CErr /\ ~HasNonAscii(s) /\ TextComp(s) # CErr      \* ASCII outside CHARSET
+                        /\ \E s \in Texts : StrictComp(s) = CErr /\ ~HasNonAscii(s) /\ TextComp(s) = CErr      \* malformed ASCII
+                        \* a component cut to the first octet of each character (or to its last) is told apart
+                        /\ \E s \in Texts : s # <<>> /\ FromStrClauses(s, Ans(Comp(8, <<s[1]>>)), Ans(TextComp(s))) = {"comp_from_str"}
+                        /\ \E s \in Texts : FromStrClauses(s, Ans(CErr), Ans(TextComp(s))) = {"comp_from_str_refused"}
+                        /\ \E s \in Texts : FromStrClauses(s, Ans(Comp(50, <<3>>)), Ans(TextComp(s))) = {"comp_from_str_alone"}
     [] Mode = "pair" -> /\ \E a, b \in QNames : IsPrefix(a, b) /\ a # b /\ a # <<>>
                         /\ \E a, b \in QNames : Len(a) = 2 /\ Len(b) = 2 /\ a[1] = b[1] /\ a[2].t < b[2].t
                                                   /\ Len(a[2].v) > Len(b[2].v)            \* type decides before length
